@@ -68,6 +68,12 @@ func ParentMain(propID, tier string, seed uint64, replay string) int {
 	if root == "" {
 		root = "/verif"
 	}
+	// Evidence and replay files go to VERIF_OUT when set (used when a check is run against a
+	// mutant tree, so that /verif/evidence always describes /repo itself).
+	outRoot := os.Getenv("VERIF_OUT")
+	if outRoot == "" {
+		outRoot = root
+	}
 	bin := os.Getenv("VERIF_BIN")
 	if bin == "" {
 		bin = filepath.Join(root, "bin")
@@ -273,7 +279,7 @@ func ParentMain(propID, tier string, seed uint64, replay string) int {
 			continue
 		}
 		newViol++
-		path := writeReplay(root, propID, tier, seed, nbatch, g.v)
+		path := writeReplay(outRoot, propID, tier, seed, nbatch, g.v)
 		fmt.Printf("VIOLATION property=%s replay=%s\n", propID, path)
 		fmt.Printf("  key=%s case=%s: %s\n", k, g.v.Case, Trunc(g.v.What, 600))
 		exit = 1
@@ -329,8 +335,8 @@ func ParentMain(propID, tier string, seed uint64, replay string) int {
 		ev.Assumptions = []string{}
 	}
 	b, _ := json.MarshalIndent(&ev, "", " ")
-	_ = os.MkdirAll(filepath.Join(root, "evidence"), 0o755)
-	if err := os.WriteFile(filepath.Join(root, "evidence", propID+".json"), append(b, '\n'), 0o644); err != nil {
+	_ = os.MkdirAll(filepath.Join(outRoot, "evidence"), 0o755)
+	if err := os.WriteFile(filepath.Join(outRoot, "evidence", propID+".json"), append(b, '\n'), 0o644); err != nil {
 		fmt.Fprintln(os.Stderr, "cannot write evidence:", err)
 		return 2
 	}
